@@ -1,7 +1,8 @@
 (* C03 -- CFB, CFB-8 and OFB compute exactly their defining recurrences, for every cipher E (no
    hypothesis: E need not be injective), every schedule, in place or buffer to buffer; the
-   decryption direction D of the cipher never enters a data path. *)
-From BM Require Import BlockModes Spec BlockModes_proofs Plumbing.
+   decryption direction D of the cipher never enters a data path.
+   PARTIAL: the one-shot (AsyncStreamCipher) partial tail is not proved; the buffered types are. *)
+From BM Require Import BlockModes Spec BlockModes_proofs Plumbing Outcome Buf_proofs.
 
 (* CFB: the object stores s = E(chaining value); with s = E(IV) the outputs are C_i = P_i xor E(C_{i-1}) *)
 Theorem C03_cfb_enc : forall (C : cipher) sched iv cs, sched_total sched = length cs ->
@@ -64,3 +65,14 @@ Theorem C03_only_E : forall bs w E D1 D2,
   buf_apply C1 = buf_apply C2 /\ buf_init C1 = buf_init C2.
 Proof. intros. repeat split; reflexivity. Qed.
 Print Assumptions C03_only_E.
+
+(* buffered CFB from a fresh object: whole blocks follow the recurrence, a trailing partial block is
+   xored with the leading bytes of the next keystream block E(C_n) *)
+Theorem C03_buffered_cfb : forall (C : cipher), (forall x, length x = c_bs C -> length (c_E C x) = c_bs C) -> 0 < c_bs C ->
+  forall iv blocks tail, length iv = c_bs C -> all_len (c_bs C) blocks -> length tail < c_bs C ->
+  (exists st', buf_apply C true (buf_init C iv) (concat blocks ++ tail) =
+     Ok (st', concat (cfb_enc_spec (c_E C) iv blocks) ++ xorb tail (c_E C (last (cfb_enc_spec (c_E C) iv blocks) iv)))) /\
+  (exists st', buf_apply C false (buf_init C iv) (concat blocks ++ tail) =
+     Ok (st', concat (cfb_dec_spec (c_E C) iv blocks) ++ xorb tail (c_E C (last blocks iv)))).
+Proof. intros C HE Hb iv blocks tail H1 H2 H3. split; [now apply buf_enc_spec | now apply buf_dec_spec]. Qed.
+Print Assumptions C03_buffered_cfb.
